@@ -34,7 +34,7 @@ func init() {
 		StubParts:  []string{"disk: in-memory io.Reader / io.Writer with tape-chosen fragmentation and failure byte", "GenerationEvaluator of the simulated experiment (scripted)", "wall clock of the simulated experiment (fake clock)"},
 		FaultKinds: []string{"fault.write_error", "fault.write_error_transient", "fault.read_error", "fault.short_reads", "fault.one_byte_reads", "fault.eof_with_data"},
 		Assumes:    []string{"weights, trait parameters and fitness values are finite float64 (NaN / Inf are not reachable by the operators from finite start values within the documented option ranges)", "generation records carry a champion, as every record made by an evaluator that fills the generation statistics does (Generation.Encode omits a nil champion while Decode expects one: observed and counted, not judged)", "Trial.Duration and the champion's species are not part of the saved form (the statement lists trials, generations, champions and the fitness / complexity / diversity / winner statistics)", "a fast solver whose folded bias sum overflowed to infinity (only reachable with the planted extreme weights) cannot be expressed in JSON and is skipped", "nothing is demanded of reads of torn data (a write that reported its error): counted only"},
-		ProbeNames: []string{"probe.rt.plain", "probe.rt.yaml", "probe.rt.yaml_modular", "probe.rt.organism", "probe.organism_after_turnover", "probe.rt.population", "probe.rt.fastsolver", "probe.rt.fastsolver_modular", "probe.rt.experiment", "probe.genome.disabled", "probe.genome.recurrent", "probe.genome.nil_trait", "probe.genome.nondefault_activation", "probe.weight.extreme", "probe.sweep", "probe.write_fault.error_reported", "probe.read_fault.error_reported", "probe.experiment.cut_short"},
+		ProbeNames: []string{"probe.rt.plain", "probe.rt.yaml", "probe.rt.yaml_modular", "probe.rt.organism", "probe.organism_after_turnover", "probe.rt.population", "probe.rt.fastsolver", "probe.rt.fastsolver_modular", "probe.rt.experiment", "probe.genome.disabled", "probe.genome.recurrent", "probe.genome.nil_trait", "probe.genome.nondefault_activation", "probe.weight.extreme", "probe.sweep", "probe.write_fault.error_reported", "probe.read_fault.error_reported", "probe.experiment.cut_short", "probe.record_surgery"},
 	})
 }
 
@@ -839,7 +839,13 @@ func scenarioC15(c *RunCtx) {
 				}
 			}
 		}
-		c.runObject(experimentObject(s.Exp, s.Describe()), mode, sweep, interesting || s.Err != nil)
+		// "all experiment records", not only those Execute leaves: a share of the records is edited first (C19's surgery)
+		desc := s.Describe()
+		if len(s.Exp.Trials) > 0 && t.Chance("record.surgery", 1, 4) {
+			c.Count("probe.record_surgery")
+			desc += " record surgery:[" + RecordSurgery(t, s.Exp) + "]"
+		}
+		c.runObject(experimentObject(s.Exp, desc), mode, sweep, interesting || s.Err != nil)
 		return
 	}
 	// ----- a simulated world -----
